@@ -40,6 +40,16 @@ def behaviour(T, top, inputs, rename=None):
             out.append(("ok", repr(v), r[2], d, bool(r[1]), r[1] == T(inp), h, repr(sorted(sizes.items()))))
         else:
             out.append(("err", type(r[1]).__name__))
+    # inputs as short as a leading member (the constructor has a shortcut for a lone char member)
+    for inp in inputs[:1]:
+        for k in (1, 2, 3, 4, 8):
+            try:
+                o_ = T(bytes(inp[:k]))          # the bytes themselves, not a stream over them
+                r = ("ok", o_)
+            except Exception as ex:  # noqa: BLE001
+                r = ("err", ex)
+            out.append(("short", k, r[0], repr(norm_or_err(r[1], top)[0]) if r[0] == "ok" else type(r[1]).__name__,
+                        hasattr(r[1], "_sizes") if r[0] == "ok" else None))
     # the structure as the element of arrays: a NUL-terminated one (ends at the all-default element) and a fixed one
     for inp in inputs:
         for count in (None, 2):
@@ -523,6 +533,58 @@ def special_sequences(ctx, rng):
                                   dict(det, got=repr(got[k])[:300], want=repr(want[k])[:300]))
                 else:
                     ctx.event("explicit_offsets_checked")
+            # (d'') a structure that for a while consisted of a single char member (the constructor takes bytes of exactly
+            # that size for the value then) and was extended: bytes of that size are a truncated input like for the
+            # structure declared in one piece
+            for n_ in (1, 4):
+                for how in ("add_field", "start_update", "loaded-then-extended"):
+                    ctx.evaluation(("lone-char-then-extended", compiled, align, n_, how))
+                    ctx.cell("lone-char-member-then-extended")
+                    det = {"workload": "special-sequences", "compiled": compiled, "align": align, "part": "lone-char-then-extended",
+                           "size": n_, "how": how}
+                    try:
+                        cs = lib.cstruct()
+                        ct = cs.char[n_] if n_ > 1 else cs.char
+                        one = cs._make_struct("hdr", [Field("magic", ct), Field("version", cs.uint8), Field("count", cs.uint16)],
+                                              align=align, base=Structure)
+                        if how == "loaded-then-extended":
+                            cs.load(f"struct hdr2 {{ char magic{'[%d]' % n_ if n_ > 1 else ''}; }};", compiled=compiled, align=align)
+                            inc = cs.hdr2
+                        else:
+                            inc = cs._make_struct("hdr", [], align=align, base=Structure)
+                            if compiled:
+                                inc = compiler.compile(inc)
+                            inc.add_field("magic", ct)
+                        if compiled:
+                            one = compiler.compile(one)
+                        first = inc(b"HDR1"[:n_])            # the lone member: this is its value
+                        if how == "start_update":
+                            with inc.start_update():
+                                inc.add_field("version", cs.uint8)
+                                inc.add_field("count", cs.uint16)
+                        else:
+                            inc.add_field("version", cs.uint8)
+                            inc.add_field("count", cs.uint16)
+
+                        def facts3(T_):
+                            out = []
+                            for d_ in (b"HDR1"[:n_], b"HDR1\x02\x03\x00\x09"[:n_ + 3 + (1 if align and n_ % 2 == 0 else 0)], b"H", b""):
+                                try:
+                                    r = ("ok", T_(d_))      # the bytes themselves, not a stream over them
+                                except Exception as ex:  # noqa: BLE001
+                                    r = ("err", ex)
+                                out.append((r[0], lib.stable_repr(r[1]).replace("hdr2", "hdr") if r[0] == "ok" else type(r[1]).__name__,
+                                            hasattr(r[1], "_sizes") if r[0] == "ok" else None))
+                            return out
+                        got, want = facts3(inc), facts3(one)
+                    except Exception as e:  # noqa: BLE001
+                        ctx.violation("build", f"incremental-build-raises:{type(e).__name__}", dict(det, error=lib.exc_sig(e)))
+                        continue
+                    if got != want or bytes(first.magic) != b"HDR1"[:n_]:
+                        ctx.violation("behaviour", "incremental-structure-behaves-differently",
+                                      dict(det, got=repr(got)[:400], want=repr(want)[:400]))
+                    else:
+                        ctx.event("lone_char_then_extended_checked")
             # straddling bit-field arriving in a later commit, also after the structure became dynamic
             for lead in ([], [("n", "uint8", None), ("d", "dyn", None)]):
                 ctx.evaluation(("late-straddle", compiled, align, len(lead)))
